@@ -47,6 +47,14 @@ def gen_specs(ctx, count):
             spec.rate = rng.choice([0.1, 0.15, 0.2, 0.25, 0.3, 0.34, 0.4])
         if rng.random() < 0.6:
             spec.indels = True
+        if rng.random() < 0.08:
+            # a tolerance given as an absolute number of errors becomes the rate k/m; for some lengths the product rate * m falls just
+            # below k in floating point (1/49 * 49 < 1): aligner and k-mer heuristic must then agree on the SAME integer part
+            m = rng.choice([47, 49, 49, 55, rng.randint(41, 60)])
+            spec.seq = U.rand_seq(rng, m, "ACGT")
+            spec.rate = rng.choice([1, 2, 3, 4, 7]) / m
+            spec.adapter_wildcards = False
+            spec.min_overlap = rng.choice([3, 10, m])
         out.append(spec)
     return out
 
